@@ -33,6 +33,12 @@ CHECKS = {
         text="For an expression corpus (hand-written quasi-affine shapes incl. quotient-remainder, nested div/mod, negative numerators, shadowed names, config reads + grammar-generated shapes) placed in every context kind (index, guard, loop bound, alloc size, window bound, call argument, config write) under loops/guards/assertions, and for all corpus procedures and derived ones: simplify is run for real and every rewritten expression is proved equal to the original for ALL integer valuations admitted by the context (unbounded).",
         note="Unbounded in the integers, bounded in expression shapes (stated family). Path conditions are the checker's own. Unalignable programs are counted as such, never as passes.",
         design="5/C12"),
+    "C13": dict(
+        category=OT, engine="crosshair+z3",
+        technique="CrossHair symbolic execution (z3) of the real IndexRange / index_range_analysis / constant_bound code per expression shape; z3 validity queries over unbounded integers for every range claim logged while compiling/simplifying and for infer_range results",
+        text="L1: for each expression shape (all shapes to depth 2, sampled depth 3, over + - * / % unary minus; bound and free variables) CrossHair explores every path of the real interval code with symbolic optional range ends, additive constants and valuation, and must report 'Confirmed over all paths' that the value lies inside the returned range; also join and partial_eval_with_range. L2: every claim the analysis makes in context is re-proved by z3 from the checker's own variable ranges.",
+        note="'other' because L1 is per-path symbolic execution under a time budget (CrossHair), L2 unbounded SMT validity. Literals for scaling/divisors are concrete ({-3,-1,2}/{1,2,3,8}). Reachability twins must be refuted.",
+        design="5/C13"),
     "C17": dict(
         category=TV, engine="loopsym",
         technique="print -> real @proc parse -> alpha-equivalence walk + z3 equivalence query (loopsym) between the procedure and its re-parsed text",
@@ -52,7 +58,7 @@ NOT_APPLICABLE = [
     ("C18", "Quantifies over CPython hash seeds and process histories; encoding it needs a model of the interpreter's dict/set implementation, not of Exo (DESIGN 6)."),
 ]
 
-PENDING = {p: 'check under construction in this round (design in DESIGN.md section 5); not claimed until its command exists' for p in ['C02','C03','C05','C06','C08','C09','C10','C11','C13','C14','C16']}
+PENDING = {p: 'check under construction in this round (design in DESIGN.md section 5); not claimed until its command exists' for p in ['C02','C03','C05','C06','C08','C09','C10','C11','C14','C16']}
 
 
 def main():
@@ -84,6 +90,8 @@ def main():
             "add_only": True,
         },
         "engines": [
+            {"name": "crosshair+z3", "path": "vlib/check_c13.py", "serves_properties": ["C13", "C06", "C16"], "kind_free_text": "CrossHair 0.0.110 harnesses generated per run against the real Python kernels"},
+            {"name": "exprtv", "path": "vlib/exprtv.py", "serves_properties": ["C12", "C13"], "kind_free_text": "lock-step expression pairing + unbounded LIA queries"},
             {"name": "loopsym", "path": "vlib/loopsym.py", "serves_properties": ["C01", "C03", "C04", "C05", "C07", "C09", "C10", "C12", "C17", "C19"], "kind_free_text": "bounded symbolic interpreter of Exo LoopIR into z3 + solver-free replay interpreter"},
         ],
         "checks": checks,
